@@ -1021,7 +1021,7 @@ def _shift_lines(scratch: str):
     return changed
 
 
-for _pid in ["C02", "C03", "C04", "C05", "C06", "C07", "C08", "C09", "C10", "C11", "C12", "C13",
+for _pid in ["C01", "C02", "C03", "C04", "C05", "C06", "C07", "C08", "C09", "C10", "C11", "C12", "C13",
              "C14", "C15", "C16", "C17", "C18", "C19", "C20"]:
     ok(_pid, "whole package re-printed with ast.unparse (layout, comments, line numbers)", _reformat_all)
     ok(_pid, "every module shifted by forty lines", _shift_lines)
@@ -1050,6 +1050,197 @@ brk("C15", "final-only label from the length of the state list", "U1", _sub(
     SD, "        times = [start_time + num_steps*dt]\n\n    return Dynamics(", "        times = [start_time + len(states)*dt]\n\n    return Dynamics("))
 brk("C15", "all-steps labels start at dt", "U1", _sub(
     SD, "        times = start_time + np.arange(len(states))*dt", "        times = start_time + (1 + np.arange(len(states)))*dt"))
+# ------------------------------------------------------------------ C01
+_RECT = """            time_2 = float(dkmax) * dt \\
+                + np.min([float(-dk) * dt,
+                            1.0*dt + parameters.add_correlation_time])"""
+brk("C01", "rectangle width from dk instead of -dk", "N1", _sub(TE, "np.min([float(-dk) * dt,", "np.min([float(dk) * dt,"))
+brk("C01", "rectangle width forgets the cell itself", "N1", _sub(
+    TE, "1.0*dt + parameters.add_correlation_time])", "parameters.add_correlation_time])"))
+brk("C01", "rectangle starts one cell late", "N1", _sub(
+    TE, "        time_1 = float(dkmax) * dt\n        if parameters.add_correlation_time is not None:",
+    "        time_1 = float(dkmax + 1) * dt\n        if parameters.add_correlation_time is not None:"))
+brk("C01", "zero additional correlation time treated as unset", "N1", _sub(
+    TE, "        if parameters.add_correlation_time is not None:\n            time_2 = float(dkmax)",
+    "        if parameters.add_correlation_time:\n            time_2 = float(dkmax)"))
+brk("C01", "rectangle integrated as a square", "N1", _sub(TE, '        shape = "rectangle"', '        shape = "square"'))
+brk("C01", "rectangle width takes the larger bound", "N1", _sub(TE, "+ np.min([float(-dk) * dt,", "+ np.max([float(-dk) * dt,"))
+brk("C01", "square cell one separation off", "N1", _sub(
+    TE, "        time_1 = float(dk) * dt\n        time_2 = None\n        shape = \"square\"",
+    "        time_1 = float(dk - 1) * dt\n        time_2 = None\n        shape = \"square\""))
+brk("C01", "cell width doubled", "N1", _sub(TE, "        delta=dt,\n        time_1=time_1,", "        delta=2*dt,\n        time_1=time_1,"))
+brk("C01", "TEMPO window one influence short", "N2", _sub(TB, "int(0 - current_step),", "int(1 - current_step),"))
+brk("C01", "TEMPO separation beyond the memory off by one", "N2", _sub(
+    TB, "infl = self._influence(self._dkmax - current_step)", "infl = self._influence(self._dkmax - current_step + 1)"))
+brk("C01", "TEMPO step == dkmax treated as beyond the memory", "N2", _sub(
+    TB, "        elif current_step <= self._dkmax:", "        elif current_step < self._dkmax:"))
+brk("C01", "TEMPO stores one influence too few", "N2", _sub(
+    TB, "            dkmax_pre_compute = self._dkmax + 1", "            dkmax_pre_compute = max(1, self._dkmax)"))
+brk("C01", "TEMPO joins the far influence on the near side", "N2", _sub(
+    TB, """                mpo = na.join(infl_na,
+                              mpo,""", """                mpo = na.join(mpo,
+                              infl_na,"""))
+brk("C01", "PT-TEMPO keeps dkmax influences instead of dkmax+1", "N2", _sub(
+    PTB, "self._num_infl = min(num_steps, dkmax+1)", "self._num_infl = min(num_steps, max(1, dkmax))"))
+brk("C01", "PT-TEMPO separation beyond the memory off by one", "N2", _sub(
+    PTB, "dk = int(0 - self._step)", "dk = int(1 - self._step)"))
+brk("C01", "PT-TEMPO end phase starts one step late", "N2", _sub(
+    PTB, "end_phase = bool(self._step > self._num_steps - self._num_infl + 1)",
+    "end_phase = bool(self._step > self._num_steps - self._num_infl + 2)"))
+brk("C01", "PT-TEMPO full memory maps to num_steps - 1", "N2", _sub(
+    PTT, "            dkmax = self._num_steps\n", "            dkmax = self._num_steps - 1\n"))
+brk("C01", "tcut from dkmax + 1 steps", "N3", _sub(TE, "        tmp_tcut = dkmax * dt", "        tmp_tcut = (dkmax + 1) * dt"))
+brk("C01", "dkmax from tcut*dt", "N3", _sub(TE, "tmp_dkmax = int(np.ceil(np.round(tcut/dt)))", "tmp_dkmax = int(np.ceil(np.round(tcut*dt)))"))
+brk("C01", "absolute instead of relative truncation in the TEMPO sweep", "N4", _sub(
+    TB, """                            max_truncation_err=self._epsrel,
+                            relative=True)""", """                            max_truncation_err=self._epsrel,
+                            relative=False)"""))
+brk("C01", "PT-TEMPO zip-up truncates ten times harder", "N4", _sub(
+    PTB, """                         max_truncation_err=self._epsrel,
+                         relative=True,
+                         copy=False)""", """                         max_truncation_err=10*self._epsrel,
+                         relative=True,
+                         copy=False)"""))
+brk("C01", "TEMPO back end halves the tolerance it was given", "N4", _sub(
+    TB, "        self._epsrel = epsrel\n        self._step = None\n        self._state = None",
+    "        self._epsrel = epsrel / 2\n        self._step = None\n        self._state = None"))
+ok("C01", "cell geometry with reordered factors, builtin min and an alias", _multi(
+    _sub(TE, "        time_1 = float(dkmax) * dt\n        if parameters.add_correlation_time is not None:",
+         "        act = parameters.add_correlation_time\n        time_1 = dt * dkmax\n        if act is not None:"),
+    _sub(TE, """            time_2 = float(dkmax) * dt \\
+                + np.min([float(-dk) * dt,
+                            1.0*dt + parameters.add_correlation_time])""",
+         "            width = min(dt + act, -dk * dt)\n            time_2 = time_1 + width")))
+ok("C01", "branches of influence_matrix reordered", _sub(
+    TE, """    if dk == 0:
+        time_1 = 0.0
+        time_2 = None
+        shape = "upper-triangle"
+    elif dk < 0:""", """    if dk > 0:
+        time_1 = float(dk) * dt
+        time_2 = None
+        shape = "square"
+    elif dk == 0:
+        time_1 = 0.0
+        time_2 = None
+        shape = "upper-triangle"
+    elif dk < 0:"""))
+ok("C01", "TEMPO window index without the cast", _sub(TB, "int(0 - current_step),", "-current_step,"))
+ok("C01", "TEMPO beyond-memory branch written with explicit comparison", _sub(
+    TB, "        else:  # current_step > self._dkmax\n", "        elif current_step > self._dkmax:\n"))
+ok("C01", "PT-TEMPO grow-phase separation via a temporary", _sub(
+    PTB, "dk = int(0 - self._step)", "new_step = self._step\n                dk = -new_step"))
+ok("C01", "PT-TEMPO end phase as a rearranged inequality", _sub(
+    PTB, "end_phase = bool(self._step > self._num_steps - self._num_infl + 1)",
+    "end_phase = self._num_steps - self._num_infl + 1 < self._step"))
+ok("C01", "tcut from dt*dkmax", _sub(TE, "        tmp_tcut = dkmax * dt", "        tmp_tcut = dt * dkmax"))
+def _eta_memo(key: str, ret: str):
+    return _multi(
+        _sub(BC, "            lambda omega: self.j_function(omega) * self._cutoff_function(omega)\n",
+             "            lambda omega: self.j_function(omega) * self._cutoff_function(omega)\n        self._eta_values = {}\n"),
+        _sub(BC, "    @lru_cache(maxsize=2 ** 10, typed=False)\n    def eta_function(", "    def eta_function("),
+        _sub(BC, r"(    def eta_function\(.*?)(        # real and imaginary part of the integrand\n)",
+             lambda m: m.group(1) + f"        key = {key}\n        if key in self._eta_values:\n"
+             "            return self._eta_values[key]\n" + m.group(2), regex=True),
+        _sub(BC, "        if matsubara:\n            integral = integral.real\n        return -integral\n",
+             f"        if matsubara:\n            integral = integral.real\n        self._eta_values[key] = -integral\n        return {ret}\n"))
+
+
+for _pid in ("C12", "C20", "C11"):
+    ok(_pid, "eta_function memoised per instance, keyed by all four arguments (value returned)",
+       _eta_memo("(tau, matsubara, epsrel, subdiv_limit)", "-integral"))
+    ok(_pid, "eta_function memoised per instance, keyed by all four arguments (slot returned)",
+       _eta_memo("(tau, matsubara, epsrel, subdiv_limit)", "self._eta_values[key]"))
+brk("C12", "eta_function memo leaves the matsubara flag out of the key", "L6",
+    _eta_memo("(tau, epsrel, subdiv_limit)", "self._eta_values[key]"))
+brk("C20", "eta_function memo leaves the matsubara flag out of the key", "A7",
+    _eta_memo("(tau, epsrel, subdiv_limit)", "self._eta_values[key]"))
+brk("C12", "eta_function memo leaves the tolerance out of the key", "L6",
+    _eta_memo("(tau, matsubara)", "-integral"))
+# ---------------------------------------- memo of prepared MPO tensors (C03 M5 / C20 A7b)
+def _mpo_memo(invalidate: bool):
+    subs = [
+        _sub(PT, "        self._mpo_tensors = []\n        self._cap_tensors = []\n",
+             "        self._mpo_tensors = []\n        self._prepared = {}\n        self._cap_tensors = []\n"),
+        _sub(PT, """            raise IndexError("Process tensor index out of bound. ")
+        tensor = self._mpo_tensors[step]
+        if len(tensor.shape) == 3:
+            tensor = util.create_delta(tensor, [0, 1, 2, 2])
+        if transformed is False:
+            return tensor
+""", """            raise IndexError("Process tensor index out of bound. ")
+        if transformed and step in self._prepared:
+            return self._prepared[step]
+        tensor = self._mpo_tensors[step]
+        if len(tensor.shape) == 3:
+            tensor = util.create_delta(tensor, [0, 1, 2, 2])
+        if transformed is False:
+            return tensor
+"""),
+        _sub(PT, """        if self._transform_out is not None:
+            tensor = np.dot(tensor, self._transform_out)
+        return tensor
+
+    def get_cap_tensor(self, step: int) -> ndarray:""", """        if self._transform_out is not None:
+            tensor = np.dot(tensor, self._transform_out)
+        self._prepared[step] = tensor
+        return tensor
+
+    def get_cap_tensor(self, step: int) -> ndarray:"""),
+    ]
+    if invalidate:
+        subs.append(_sub(PT, "        self._mpo_tensors[step] = np.array(tensor, dtype=NpDtype)\n",
+                         "        self._mpo_tensors[step] = np.array(tensor, dtype=NpDtype)\n        self._prepared.pop(step, None)\n"))
+    return _multi(*subs)
+
+
+brk("C03", "prepared MPO tensors memoised, set_mpo_tensor leaves the memo", "M5", _mpo_memo(False))
+brk("C20", "prepared MPO tensors memoised, set_mpo_tensor leaves the memo", "A7b", _mpo_memo(False))
+ok("C03", "prepared MPO tensors memoised and dropped by set_mpo_tensor", _mpo_memo(True))
+ok("C20", "prepared MPO tensors memoised and dropped by set_mpo_tensor", _mpo_memo(True))
+
+# ---------------------------------------- Gibbs path orientation (C11 K5 / C04 D5)
+brk("C11", "GibbsTempo hands the half-step propagator untransposed", "K5", _sub(
+    TE, "                propagators(1)[0].T,\n", "                propagators(1)[0],\n"))
+brk("C11", "read-out closes the path with the untransposed propagator", "K5", _sub(
+    TB, "        result = self._prop.T\n", "        result = self._prop\n"))
+brk("C04", "read-out closes the path with the untransposed propagator", "D5", _sub(
+    TB, "        result = self._prop.T\n", "        result = self._prop\n"))
+brk("C04", "free propagation step forgets the transpose", "D5", _sub(
+    TB, "            free_prop = np.dot(tensor, self._prop.T)", "            free_prop = np.dot(tensor, self._prop)"))
+_GIBBS_T_INSIDE = _multi(
+    _sub(TE, "                propagators(1)[0].T,\n", "                propagators(1)[0],\n"),
+    _sub(TB, "        self._prop = propagator\n", "        self._prop = propagator.T\n"))
+ok("C11", "transpose moved from GibbsTempo into the back end's constructor", _GIBBS_T_INSIDE)
+ok("C04", "transpose moved from GibbsTempo into the back end's constructor", _GIBBS_T_INSIDE)
+ok("C11", "transposes written with np.transpose and a local alias", _multi(
+    _sub(TB, "        result = self._prop.T\n", "        result = np.transpose(self._prop)\n"),
+    _sub(TB, "            free_prop = np.dot(tensor, self._prop.T)", "            prop_t = self._prop.T\n            free_prop = np.dot(tensor, prop_t)")))
+
+# ---------------------------------------- propagator derivative provenance (C08 H4)
+brk("C08", "derivative of the full-step instead of the half-step propagator", "H4", _sub(
+    SY, "            return expm(self.liouvillian(*parameterlist)*dt/2.0)", "            return expm(self.liouvillian(*parameterlist)*dt)"))
+brk("C08", "imaginary part of the Jacobian taken from the real part", "H4", _sub(
+    SY, "        jacfunim=Jacobian(lambda x: prop(x).imag)", "        jacfunim=Jacobian(lambda x: prop(x).real)"))
+brk("C08", "real and imaginary Jacobians recombined without the imaginary unit", "H4", _sub(
+    SY, "            jac=jacfunre(x)+1.0j*jacfunim(x)", "            jac=jacfunre(x)+jacfunim(x)"))
+brk("C08", "unit-step secant of the propagator instead of its derivative", "H4", _multi(
+    _sub(SY, "        jacfunre=Jacobian(lambda x: prop(x).real)\n        jacfunim=Jacobian(lambda x: prop(x).imag)\n", ""),
+    _sub(SY, "            jac=jacfunre(x)+1.0j*jacfunim(x)\n\n            return [jac[:,i,:] for i in range(self._number_of_parameters)]",
+         "            x=np.asarray(x,dtype=float)\n            return [prop(x+unit)-prop(x) for unit in np.eye(self._number_of_parameters)]")))
+ok("C08", "half-step propagator written as expm(0.5*dt*L) through a helper", _sub(
+    SY, "            return expm(self.liouvillian(*parameterlist)*dt/2.0)",
+    "            liou = self.liouvillian(*parameterlist)\n            return expm(0.5*dt*liou)"))
+
+# ---------------------------------------- dk handed on unchanged (C02 S1)
+brk("C02", "PtTempo clamps dk before asking for the influence", "S1", _sub(
+    PTT, "        return influence_matrix(\n            dk,\n            parameters=self._parameters,",
+    "        dk = max(dk, -self._parameters.dkmax) if self._parameters.dkmax else dk\n        return influence_matrix(\n            dk,\n            parameters=self._parameters,"))
+ok("C02", "PtTempo casts dk to int before asking for the influence", _sub(
+    PTT, "        return influence_matrix(\n            dk,\n            parameters=self._parameters,",
+    "        dk = int(dk)\n        return influence_matrix(\n            dk,\n            parameters=self._parameters,"))
+brk("C11", "eta_function memo leaves the matsubara flag out of the key", "K6",
+    _eta_memo("(tau, epsrel, subdiv_limit)", "-integral"))
 ok("C11", "Gibbs: remaining steps via a temporary", _sub(
     TE, "        num_step = max(\n            0, self._parameters.n_steps - 1 - self._backend_instance.step)",
     "        done = self._backend_instance.step\n        last = self._parameters.n_steps - 1\n        num_step = max(0, last - done)"))
